@@ -6,6 +6,7 @@ use std::path::PathBuf;
 
 fn main() {
     let args: Vec<String> = std::env::args().collect();
+    if args.get(1).map(|s| s.as_str()) == Some("--c17-probe") { corr::c17::probe_main(); return; }
     let mut id = String::new();
     let mut tier = Tier::Quick;
     let mut seed = 1u64;
